@@ -63,10 +63,15 @@ def cmap_case(fmt, mapping, rng, hb=False):
     st = CmapSubtable.newSubtable(fmt)
     st.platformID, st.platEncID, st.language = (3, 10, 0) if fmt in (12, 13) else (3, 1, 0) if fmt != 0 else (1, 0, 0)
     st.cmap = {c: "g%d" % g for c, g in mapping.items()}
-    data = st.compile(FONT)
-    back = CmapSubtable.newSubtable(fmt)
-    back.decompile(data, FONT)
-    back.ensureDecompiled() if hasattr(back, "ensureDecompiled") else None
+    try:
+        data = st.compile(FONT)
+        back = CmapSubtable.newSubtable(fmt)
+        back.decompile(data, FONT)
+        back.ensureDecompiled() if hasattr(back, "ensureDecompiled") else None
+        back.cmap
+    except Exception as e:  # every generated map is inside the format's domain
+        return {"k": "raised", "what": "cmap:format%d" % fmt, "err": "%s: %s" % (type(e).__name__, e), "n": len(mapping),
+                "map": sorted(mapping.items())[:40]}
     # probe set: every mapped code, its neighbours, range ends
     probes = set()
     top = 255 if fmt == 0 else 0x10FFFF if fmt in (12, 13) else 0xFFFF
@@ -511,10 +516,17 @@ def gen_misc(chk):
         npts = rng.choice([1, 2, 5, 40, 130, 300])
         pts = sorted(rng.sample(range(npts), rng.randint(1, npts))) if rng.random() < 0.7 else list(range(npts))
         coords = [None] * npts
-        dl = []
-        for p in pts:
-            d = (rng.choice([0, 0, 1, -1, 127, -128, 128, 300, -32768, 32767]), rng.choice([0, 0, 2, -3, 200]))
-            coords[p] = d
+        if rng.random() < 0.5:
+            for p in pts:
+                d = (rng.choice([0, 0, 1, -1, 127, -128, 128, 300, -32768, 32767]), rng.choice([0, 0, 2, -3, 200]))
+                coords[p] = d
+        else:  # run-structured deltas: runs of zeros / bytes / words whose lengths cross the 64-per-run limit
+            seq = []
+            while len(seq) < 2 * len(pts):
+                v = rng.choice([0, 0, 5, -100, 300, -32768])
+                seq += [v] * rng.choice([1, 2, 63, 64, 65, 128, 129])
+            for i, p in enumerate(pts):
+                coords[p] = (seq[i], seq[len(pts) + i])
         peaks = [rng.choice([-16384, -8192, 8192, 16384, 4096]), rng.choice([0, 16384, -16384])]
         tv = TupleVariation({a: (min(0, p / 16384), p / 16384, max(0, p / 16384)) for a, p in zip(axes, peaks) if p}, coords)
         if not tv.axes:
